@@ -4,8 +4,8 @@
    allocations over the open allocations, and stake-pool TotalOffers = sum of their offers
    (Offer = Coin(sizeInGB(size) * write_price) of the terms stored in the allocation).
    Three defects found by this check were repaired in /repo and the model follows the repaired
-   code: 715581f (repeated kill/shutdown zeroed TotalOffers, after which finalize/cancel failed
-   forever), bda8708 (extendAllocation set every size to BlobberAllocs[0].Size+diff while Allocated
+   code: 0db42d4 (repeated kill/shutdown zeroed TotalOffers, after which finalize/cancel failed
+   forever), 80aa9ea (extendAllocation set every size to BlobberAllocs[0].Size+diff while Allocated
    grew by diff).  One is listed as a known finding and stays in the faithful model:
    replaceBlobber's killed/shut-down branch drops the blobber allocation without releasing the
    killed blobber's Allocated and offer ([ss_fired13]). *)
